@@ -36,6 +36,10 @@ R4  A short-name reference names the unique object of that short name in its con
     parameter list (TABLE-KEY-SNREF).  No candidate, or several candidates that are all local
     to the context -> unresolvable.  Several candidates through inheritance -> loose.
     Whether imported objects are visible to short-name references is not asserted (loose).
+R6  History: after the loaded object tree has been edited (an object removed from / appended to
+    the list of its layer, its ODX id changed, replaced by a copy) and Database.refresh() has been
+    called, every reference is bound as a fresh load of the edited documents would bind it:
+    R1-R5 are applied to the edited configuration, nothing of the earlier one may survive.
 R5  retarget_snrefs(db, X) rebinds the layer-context short-name references owned by X and by
     the (transitive) parents of X to X's view.
 """
@@ -87,6 +91,8 @@ RK = {
     "TABLE-ROW/STRUCTURE-SNREF": (("struct",), "struct"),
     "TABLE-ROW/DATA-OBJECT-PROP-REF": (("dop",), None),
     "TABLE-ROW/DATA-OBJECT-PROP-SNREF": (("dop",), "dop"),
+    "TABLE/TABLE-ROW-REF": (("row",), None),          # a table including a row another table defines
+    "PROTOCOL-SNREF": (("layer",), "protocols"),      # DIAG-COMM/PROTOCOL-SNREFS: the layer's protocols
 }
 CAT_KINDS = {"alldops": DOPLIKE, "dop": ("dop",), "struct": ("struct",), "table": ("table",)}
 KIND_LIST = {v: k for k, v in LAYER_LISTS.items()}
@@ -133,6 +139,8 @@ def iter_sites(layer):
             yield ("svc", j, "pos", k), "POS-RESPONSE-REF", s["pos"], k
         for k, _ in enumerate(s.get("neg", [])):
             yield ("svc", j, "neg", k), "NEG-RESPONSE-REF", s["neg"], k
+        for k, _ in enumerate(s.get("prot", [])):
+            yield ("svc", j, "prot", k), "PROTOCOL-SNREF", s["prot"], k
     for lk, j, o in iter_param_lists(layer):
         for k, p in enumerate(o.get("params", [])):
             base = (lk, j, "param", k)
@@ -163,7 +171,9 @@ def iter_sites(layer):
         if t.get("keydop") is not None:
             yield ("tables", j, "keydop"), "KEY-DOP-REF", t, "keydop"
         for k, r in enumerate(t.get("rows", [])):
-            if r.get("target") is not None:
+            if "ref" in r:        # TABLE-ROW-REF inside TABLE: the row is defined by another table
+                yield ("tables", j, "rowref", k), "TABLE/TABLE-ROW-REF", r, "ref"
+            elif r.get("target") is not None:
                 b = "TABLE-ROW/STRUCTURE-REF" if r["tkind"] == "struct" else "TABLE-ROW/DATA-OBJECT-PROP-REF"
                 yield ("tables", j, "row", k), b, r, "target"
 
@@ -247,6 +257,8 @@ class Model:
                             pk = {"TABLE-KEY": "tkey", "LENGTH-KEY": "lkey"}.get(p["kind"], "param")
                             self._reg(pk, p, l["sn"], c["sn"], maps)
                         for r in o.get("rows", []):
+                            if "ref" in r:
+                                continue
                             self._reg("row", r, l["sn"], c["sn"], maps)
                             self.obj[r["uid"]]["table"] = o["uid"]
                         for cs in o.get("cases", []):
@@ -380,6 +392,19 @@ class Model:
                 res.setdefault(name, set()).update(uids)
         return res
 
+    def protocols(self, sn, _stack=()):
+        """short name -> layer uid of the PROTOCOL layers applicable to a layer (itself if it is a
+        protocol, plus those of its parents); ECU-SHARED-DATA layers have none"""
+        l = self.layer[sn]
+        out = {}
+        if l["type"] == "ECU-SHARED-DATA" or sn in _stack:
+            return out
+        for p in self._parents.get(sn, []):
+            out.update(self.protocols(p, _stack + (sn,)))
+        if l["type"] == "PROTOCOL":
+            out[sn] = l["uid"]
+        return out
+
     def imported_names(self, sn, cat):
         out = set()
         for e in self._imports.get(sn, []):
@@ -395,6 +420,9 @@ class Model:
             if len(c) > 1:
                 return "bad", c, "ambiguous-parameter-name"
             return "ok", c, ""
+        if cat == "protocols":
+            u = self.protocols(layer_sn).get(name)
+            return ("ok", [u], "") if u is not None else ("bad", [], "protocol-not-applicable")
         c = sorted(self.view(layer_sn, cat).get(name, ()))
         if not c:
             if name in self.imported_names(layer_sn, cat):
@@ -454,7 +482,7 @@ class Model:
                         site["cat"] = cat
                     st, al, why = self.resolve_sn(ref["n"], sn, cat, params)
                     site["name"] = ref["n"]
-                    if st == "ok" and cat != "params":
+                    if st == "ok" and cat not in ("params", "protocols"):
                         site["inherited"] = self.obj[al[0]]["layer"] != sn
                 if st == "ok":
                     bad_kind = [u for u in al if self.obj[u]["kind"] not in kinds]
@@ -483,7 +511,11 @@ class Model:
             if s["form"] != "sn" or s["cat"] is None:
                 continue
             if s["layer"] in anc:
-                c = sorted(self.view(target_sn, s["cat"]).get(s["name"], ()))
+                if s["cat"] == "protocols":
+                    u = self.protocols(target_sn).get(s["name"])
+                    c = [u] if u is not None else []
+                else:
+                    c = sorted(self.view(target_sn, s["cat"]).get(s["name"], ()))
                 if len(c) != 1:
                     ok = False
                 out[i] = c
@@ -633,6 +665,9 @@ def _layer(parent, l):
                 if t.get("keydop") is not None:
                     _ref(te, "KEY-DOP-REF", t["keydop"])
                 for i, r in enumerate(t.get("rows", [])):
+                    if "ref" in r:
+                        _ref(te, "TABLE-ROW-REF", r["ref"])
+                        continue
                     re_ = _sub(te, "TABLE-ROW", ID=r["id"])
                     _names(re_, r)
                     _sub(re_, "KEY", str(i))
@@ -652,6 +687,10 @@ def _layer(parent, l):
                 ng = _sub(se, "NEG-RESPONSE-REFS")
                 for r in s["neg"]:
                     _ref(ng, "NEG-RESPONSE-REF", r)
+            if s.get("prot"):
+                pg = _sub(se, "PROTOCOL-SNREFS")
+                for r in s["prot"]:
+                    _sub(pg, "PROTOCOL-SNREF", **{"SHORT-NAME": r["n"]})
         for r in l.get("commrefs", []):
             _ref(g, "DIAG-COMM-REF", r)
     for lk, grp, tag in (("reqs", "REQUESTS", "REQUEST"), ("poss", "POS-RESPONSES", "POS-RESPONSE"),
@@ -897,6 +936,10 @@ class Gen:
         neg = self.negative if self.negative is not None else self.chance(45)
         if neg:
             self.inject(case, m)
+        elif self.chance(85):
+            h = self.gen_history(case, m)
+            if h:
+                case["history"] = h
         return _strip(case)
 
     # ---- positive references ---------------------------------------------
@@ -972,6 +1015,9 @@ class Gen:
                 s["request"] = self.make_ref(m, l, "REQUEST-REF")
                 s["pos"] = [x for x in (self.make_ref(m, l, "POS-RESPONSE-REF") for _ in range(r.randint(0, 2))) if x]
                 s["neg"] = [x for x in (self.make_ref(m, l, "NEG-RESPONSE-REF") for _ in range(r.randint(0, 1))) if x]
+                prots = sorted(m.protocols(l["sn"]))
+                if prots and self.chance(60):
+                    s["prot"] = [{"f": "sn", "n": prots[r.randint(0, len(prots) - 1)]}]
             if self.chance(40):
                 t = self.choose_target(m, l, ("svc",), exclude_layers=(l["sn"],))
                 if t is not None and m.obj[t]["sn"] not in [s["sn"] for s in l["svcs"]]:
@@ -1051,6 +1097,13 @@ class Gen:
                         row["tkind"] = "dop"
                         ref = self.make_ref(m, l, "TABLE-ROW/DATA-OBJECT-PROP-REF")
                     row["target"] = ref
+                # rows defined by other tables, included by TABLE-ROW-REF (preferably of other layers)
+                if self.chance(40):
+                    own_rows = {row["uid"] for row in t["rows"]}
+                    far = [u for u, o in m.obj.items() if o["kind"] == "row" and u not in own_rows
+                           and (o["layer"] != l["sn"] or self.chance(25))]
+                    if far:
+                        t["rows"].append({"ref": self.id_ref_to(m, l, far[r.randint(0, len(far) - 1)])})
             l["svcs"] = [s for s in l["svcs"] if s["request"] is not None]
 
     def plain_dop_ref(self, m, layer, rk):
@@ -1058,6 +1111,39 @@ class Gen:
         # a DOP that will get a LENGTH-KEY-REF is still a DATA-OBJECT-PROP: fine for the loader
         t = self.choose_target(m, layer, ("dop",))
         return self.id_ref_to(m, layer, t) if t is not None else None
+
+    # ---- history: edits of the loaded tree, each followed by refresh() ----------------
+    EDIT_LISTS = ("dops", "structs", "tables", "reqs", "poss", "negs", "svcs", "sfields", "muxs")
+
+    def gen_history(self, case, m):
+        r = self.r
+        refd_id = {u for s in m.sites if s["status"] == "ok" and s["form"] == "id" for u in s["allowed"]}
+        refd_sn = {u for s in m.sites if s["status"] == "ok" and s["form"] == "sn" for u in s["allowed"]}
+        cands = []
+        for c, l in iter_layers(case):
+            for lk in self.EDIT_LISTS:
+                for i, o in enumerate(l.get(lk, [])):
+                    w = 1 + (6 if o["uid"] in refd_id else 0) + (4 if o["uid"] in refd_sn else 0)
+                    cands.append(((c, l, lk, i, o), w))
+        if not cands:
+            return []
+        c, l, lk, i, o = self.pick(cands)
+        pat = self.pick([("remove-restore", 4), ("rename-back", 3), ("replace", 5), ("remove", 2)])
+        if pat == "replace" and (lk != "dops" or o.get("lenkey") is not None):
+            pat = "remove-restore"
+        if pat == "rename-back" and lk == "tables":
+            pat = "remove-restore"       # the rows of a table keep a reference to the table's id
+        at = {"layer": l["sn"], "lk": lk, "i": i}
+        if pat == "remove":
+            return [dict(at, op="remove")]
+        if pat == "remove-restore":
+            return [dict(at, op="remove"), {"op": "restore", "layer": l["sn"], "lk": lk}]
+        if pat == "replace":
+            return [dict(at, op="replace", uid=self.nuid())]
+        own = m.ids_cont[c["sn"]]
+        other = sorted({x for cn, mp in m.ids_cont.items() if cn != c["sn"] for x in mp if x not in own})
+        new = other[r.randint(0, len(other) - 1)] if other and self.chance(70) else c["_spare"][0]
+        return [dict(at, op="rename", id=new), dict(at, op="rename", id=o["id"])]
 
     # ---- negative cases -----------------------------------------------------
     def inject(self, case, m):
@@ -1161,6 +1247,13 @@ class Gen:
                 return {"f": "sn", "n": "nx", "tag": "nonexistent-name"}
             params.append({"sn": ref["n"], "uid": self.nuid(), "kind": "VALUE", "dop": dref})
             return {"f": "sn", "n": ref["n"], "tag": k}
+        if cat == "protocols":
+            others = sorted(x for x in m.layer if x not in m.protocols(sn))
+            if others and self.chance(80):
+                # a layer (preferably a protocol) that is not one of the protocols of this layer
+                pr = [x for x in others if m.layer[x]["type"] == "PROTOCOL"] or others
+                return {"f": "sn", "n": pr[r.randint(0, len(pr) - 1)], "tag": "name-elsewhere"}
+            return {"f": "sn", "n": "nx", "tag": "nonexistent-name"}
         view = m.view(sn, cat)
         st, al, _ = m.resolve_sn(ref["n"], sn, cat)
         local = st == "ok" and m.obj[al[0]]["layer"] == sn
@@ -1200,6 +1293,28 @@ class Gen:
         for d in l.get("dops", []):
             return {"f": "id", "id": d["id"], "doc": None}
         return None
+
+
+def apply_edit(case, op, stash):
+    """IR side of one history step -> edited deep copy of the case.  `stash` carries the object
+    taken out by the last "remove" for a following "restore"."""
+    import copy
+    case = copy.deepcopy(case)
+    l = [x for _, x in iter_layers(case) if x["sn"] == op["layer"]][0]
+    lst = l.setdefault(op["lk"], [])
+    if op["op"] == "remove":
+        stash["ir"] = lst.pop(op["i"])
+    elif op["op"] == "restore":
+        lst.append(copy.deepcopy(stash["ir"]))
+    elif op["op"] == "rename":
+        lst[op["i"]]["id"] = op["id"]
+    elif op["op"] == "replace":
+        o = lst.pop(op["i"])
+        o["uid"] = op["uid"]
+        lst.append(o)
+    else:
+        raise ValueError(f"unknown edit {op}")
+    return case
 
 
 def _strip(o, keep_spare=False):
